@@ -5,7 +5,7 @@ YAML Path processor based on ruamel.yaml.
 Copyright 2018, 2019, 2020, 2021, 2022 William W. Kimball, Jr. MBA MSIS
 """
 from collections import OrderedDict
-from typing import Any, Dict, Generator, List, Union
+from typing import Any, Dict, Generator, List, Optional, Union
 
 from ruamel.yaml.compat import ordereddict as ryod
 from ruamel.yaml.comments import (
@@ -737,17 +737,25 @@ class Processor:
         """
         self._delete_nodes(gathered_nodes)
 
-    def _delete_nodes(self, delete_nodes: List[NodeCoords]) -> None:
+    def _delete_nodes(
+        self, delete_nodes: List[NodeCoords],
+        deleted: Optional[List[NodeCoords]] = None
+    ) -> None:
         """
         Recursively delete specified nodes.
 
         Parameters:
         1. delete_nodes (List[NodeCoords]) The nodes to delete.
+        2. deleted (Optional[List[NodeCoords]]) The nodes already deleted by
+           the present operation; for internal use.
 
         Raises:
         - `YAMLPathException` when the operation would destroy the entire
            document
         """
+        if deleted is None:
+            deleted = []
+
         # pylint: disable=locally-disabled,too-many-nested-blocks
         for delete_nc in reversed(delete_nodes):
             node = delete_nc.node
@@ -766,10 +774,20 @@ class Processor:
                 and len(node) > 0
                 and isinstance(node[0], NodeCoords)
             ):
-                self._delete_nodes(node)
+                self._delete_nodes(node, deleted)
             elif isinstance(node, NodeCoords):
-                self._delete_nodes([node])
+                self._delete_nodes([node], deleted)
+            elif any(
+                parent is gone.parent and parentref == gone.parentref
+                for gone in deleted
+            ):
+                # The same node was matched more than once (by more than one
+                # sub-path or via more than one Alias); it is already gone.
+                # Deleting at its coordinates again would remove whichever
+                # node has since taken its place.
+                continue
             elif isinstance(parent, (CommentedMap, dict)):
+                deleted.append(delete_nc)
                 all_data = ancestry[0][0] if len(ancestry) > 0 else parent
                 all_anchors: Dict[str, Any] = {}
                 Anchors.scan_for_anchors(all_data, all_anchors)
@@ -800,9 +818,11 @@ class Processor:
                 elif parentref in parent:
                     del parent[parentref]
             elif isinstance(parent, (CommentedSeq, list)):
+                deleted.append(delete_nc)
                 if -len(parent) <= parentref < len(parent):
                     del parent[parentref]
             elif isinstance(parent, (CommentedSet, set)):
+                deleted.append(delete_nc)
                 parent.discard(parentref)
             else:
                 # Edge-case:  Attempt to delete from a document which is
